@@ -211,6 +211,63 @@ def replay_near(mm, axis, n, sv, iv):
     return None
 
 
+def second_request_job(args):
+    """Two near-field requests in a row on ONE object (a scan line shifted a little, another increment, another count):
+    the table of the second request holds the points of the second request.  Concrete runs of the regenerated code on
+    request pairs chosen to differ by 1e-9 .. 1e-2 relative in one parameter (structural obligation, like the table rows)."""
+    tier, = args
+    t0 = time.time()
+    sh = symx.load()
+    M = sh.mininec
+    mm = symx.real_mininec()
+    res = dict(kind='near-second', n=0, obls=[], solver_s=0.0, queries=0, paths=1, aborted=0, functions=[], violations=[])
+    first = ([20000.0, 1.0, -3.0], [0.1, 0.25, 1.0], [3, 2, 1])
+    variants = []
+    for rel in (1e-9, 1e-7, 2.5e-6, 1e-4, 1e-2):
+        variants.append(([20000.0 * (1 + rel), 1.0, -3.0], first[1], first[2], 'start x shifted by %g relative' % rel))
+        variants.append((first[0], [0.1 * (1 + rel), 0.25, 1.0], first[2], 'increment x changed by %g relative' % rel))
+    variants.append((first[0], first[1], [3, 2, 2], 'count z 1 -> 2'))
+    variants.append(([20000.0, 1.0, -3.0 + 1e-7], first[1], first[2], 'start z shifted by 1e-7'))
+
+    def run(Mx, second):
+        m = catalogue.build(Mx, 'G1')
+        m.power = 1.0
+        m.current = np.zeros(len(m.pulses), dtype=complex)
+        m.compute_near_field(*first)
+        m.compute_near_field(second[0], second[1], second[2])
+        got = np.array(m.near_field_coord, dtype=float)
+        want = []
+        n = second[2]
+        for iz in range(n[2]):
+            for iy in range(n[1]):
+                for ix in range(n[0]):
+                    want.append([second[0][0] + ix * second[1][0], second[0][1] + iy * second[1][1], second[0][2] + iz * second[1][2]])
+        want = np.array(want).T
+        rows = len(list(m.near_field_iter()))
+        if got.shape != want.shape or rows != want.shape[1] or len(m.e_field) != want.shape[1]:
+            return 'table of the second request has %d points (%d field rows), requested %d' % (got.shape[-1], len(m.e_field), want.shape[1])
+        if np.abs(got - want).max() > 1e-9 * np.abs(want).max():
+            k = int(np.argmax(np.abs(got - want).max(axis=0)))
+            return 'point %d of the second request is listed at %s, requested %s' % (k + 1, list(got[:, k]), list(want[:, k]))
+        return None
+
+    for second in variants:
+        oname = 'near-second-request/%s' % second[3]
+        bad = run(M, second)
+        if bad is None:
+            res['obls'].append((oname, 'discharged', None))
+            continue
+        real = run(mm, second)
+        if real is None:
+            res['obls'].append((oname, 'spurious', bad))
+        else:
+            res['violations'].append(('C16:near-field:second-request', 'after a request %s, a second request with %s: %s' % (first, second[3], real),
+                                      dict(kind='near-second', first=[list(x) for x in first], second=[list(second[0]), list(second[1]), list(second[2])])))
+            res['obls'].append((oname, 'violation', real))
+    res['wall'] = time.time() - t0
+    return res
+
+
 def far_job(args):
     tier, nt, npn, qt, which = args
     t0 = time.time()
@@ -381,7 +438,7 @@ def main(args):
         far = [(tier, a, b, qt, w) for a, b in ((1, 1), (3, 4), (7, 2), (19, 3), (10, 37), (100, 2), (2, 100)) for w in ('theta', 'phi')]
     ck.shadow_stats = symx.load().stats
     with mp.Pool(min(16, os.cpu_count() or 1)) as pool:
-        results = pool.map(far_job, far) + pool.map(near_job, near, chunksize=1)
+        results = pool.map(far_job, far) + pool.map(near_job, near, chunksize=1) + pool.map(second_request_job, [(tier,)])
     funcs = set()
     for r in results:
         funcs.update(r['functions'])
